@@ -387,6 +387,31 @@ def rule_siblings(check):
                         other = [c for c in f.conds_at(n) if c["t"] not in ("pat", "closure")]
                         ok = key_ok and len(conds) == 1 and not other
                         detail = "bucket key from the tag parameter=%s, entry(tag).or_insert(0) += 1" % key_ok
+    if not ok:
+        # `match map.get_mut(&tag) { Some(c) => *c += 1, None => { map.insert(tag, 1); } }`, in inc or in a
+        # method it hands the tag to
+        pv = Prov(prog)
+        for g_ in prog.flat(f, 1):
+            for m in [x for x in hir.walk(g_.body) if x.get("k") == "Match"]:
+                sc = hir.peel(m["scrut"])
+                if not (hir.is_call(sc) and (hir.callee_name(sc) or sc.get("method")) == "get_mut" and (hir.place(hir.call_args(sc)[0]) or "").endswith(".propagation_debug")):
+                    continue
+                key_o = pv.origins_upto(f, g_, hir.call_args(sc)[1])
+                key_ok = bool(key_o) and all(r[0] == "param" and r[1] == f.def_path and r[2] == 1 for r, p in key_o)
+                some_ok = none_ok = False
+                for a in m["arms"]:
+                    vn = str(hir.pat_variant(a["pat"])).split("::")[-1]
+                    if vn == "Some":
+                        bs = hir.pat_bindings(a["pat"])
+                        incs_ = [x for x in hir.walk(a["body"]) if x.get("k") == "AssignOp" and x.get("op") in ("Add", "AddAssign") and hir.lit_value(x["r"]) == 1 and bs and (hir.local_of(hir.peel_transparent(x["l"])) or (None,))[0] == bs[0]["local"]]
+                        some_ok = len(incs_) == 1
+                    elif vn == "None":
+                        ins_ = [x for x in hir.walk(a["body"]) if hir.is_call(x) and (hir.callee_name(x) or x.get("method")) == "insert" and (hir.place(hir.call_args(x)[0]) or "").endswith(".propagation_debug")]
+                        none_ok = len(ins_) == 1 and hir.lit_value(hir.call_args(ins_[0])[2]) == 1 and all(r[0] == "param" and r[1] == f.def_path and r[2] == 1 for r, p in pv.origins_upto(f, g_, hir.call_args(ins_[0])[1]))
+                if key_ok and some_ok and none_ok:
+                    conds = [c for c in f.conds_at(m) if c["t"] == "pat"] if g_ is f else [c for x in hir.walk(f.body) if hir.is_call(x) and prog.resolve_local(x) is g_ for c in f.conds_at(x) if c["t"] == "pat"]
+                    ok = len(conds) == 1
+                    detail = "bucket of the tag: get_mut(tag) += 1, else insert(tag, 1)"
     check.expect(ok, R, R + "/DebugTelemetry/bucket", hir.loc(f.rec), detail, "DebugTelemetry::inc: " + detail)
     g = _method(prog, "DebugTelemetry", "get_propagation_debug")
     from ..prov import return_exprs
